@@ -242,6 +242,29 @@ pub fn run(ctx: &Ctx) -> CheckOutput {
             }));
         }
     }
+    // every two-level chain on quiet tails: a short lively prefix, then the last letter repeated (and the
+    // prefix repeated cyclically) long enough for a recursive inner view's output to decay through the
+    // subnormal range down to exactly zero (about 1100 updates at f64, 160 at f32) - differences and
+    // ranges of the window are then tiny or subnormal, which reciprocals and ratios must survive
+    for o in unary_catalogue() {
+        jobs.push(Box::new(move || {
+            let mut st = Stats::default();
+            let sink = Sink::new();
+            for i in unary_catalogue() {
+                for (on, inn) in [(3usize, 2usize), (8, 5)] {
+                    let spec = mk(o.kind, on, mk(i.kind, inn, Spec::echo()));
+                    if !domain_ok(&spec) {
+                        continue;
+                    }
+                    let a = alphabet(&spec);
+                    let seqs = vec![vec![a[1], a[0]], vec![a[1], a[2], a[3], a[0]], vec![a[0], a[1]]];
+                    check_long::<f64>(&spec, &seqs, if quick { 1_300 } else { 2_600 }, &mut st, &sink);
+                    check_long::<f32>(&spec, &seqs, if quick { 330 } else { 700 }, &mut st, &sink);
+                }
+            }
+            JobOut { stats: st, viols: sink.take(), samples: vec![json!({"explorer":"LONG","outer":format!("{:?}", o.kind),"inner":"every view","driver":"3 short prefixes, each extended as a constant and cyclically","steps":"1300 (f64), 330 (f32)"})] }
+        }));
+    }
     // combinators (non-zero divisor)
     let pool = [Spec::echo(), Spec::un(Kind::Sma, 2, Spec::echo()), Spec::un(Kind::Roc, 1, Spec::echo()), Spec::unp(Kind::GTE, 0, vec![1.0], Spec::echo()), Spec::constant(2.0)];
     for k in BINARY {
